@@ -435,6 +435,7 @@ theorem step_pres (w : World) (op : Op) : Pres w (step w op) := by
       repeat' split
       all_goals first | exact Pres.refl _ | exact pr_wsFrame _ _ (Pres.refl _)
     | drop c => exact pr_wsDrop _ (Pres.refl _)
+    | closeFrame c code => exact pr_wsDrop _ (pr_setConn _ _ (Pres.refl _))
     | send sid m c cb pre => exact pr_appSend _ _ _ _ _ (Pres.refl _)
     | close sid d => exact pr_appClose _ _ (Pres.refl _)
     | shutdown => exact pr_shutdown (Pres.refl _)
